@@ -309,6 +309,19 @@ impl<B: AsRef<[usize]> + BitCount> SelectZeroAdapt<B, Box<[usize]>> {
         max_log2_u64_per_subinventory: usize,
     ) -> Self {
         let num_bits = max(1, bits.len());
+        // The backend might contain arbitrary bits beyond the length of the
+        // vector (in the last word, and in further words): they are not zeros
+        // of the vector and must be ignored
+        let num_words = bits.len().div_ceil(usize::BITS as usize);
+        let residual = bits.len() % usize::BITS as usize;
+        let word_at = |i: usize| {
+            let word = !bits.as_ref()[i];
+            if i + 1 == num_words && residual != 0 {
+                word & ((1 << residual) - 1)
+            } else {
+                word
+            }
+        };
         let ones_per_inventory = 1 << log2_ones_per_inventory;
         let ones_per_inventory_mask = ones_per_inventory - 1;
         let inventory_size = num_ones.div_ceil(ones_per_inventory);
@@ -338,7 +351,7 @@ impl<B: AsRef<[usize]> + BitCount> SelectZeroAdapt<B, Box<[usize]>> {
         let mut spilled = 0;
 
         // First phase: we build an inventory for each one out of ones_per_inventory.
-        for (i, word) in bits.as_ref().iter().copied().map(|b| !b).enumerate() {
+        for (i, word) in (0..num_words).map(|i| (i, word_at(i))) {
             let ones_in_word = (word.count_ones() as usize).min(num_ones - past_ones);
 
             while past_ones + ones_in_word > next_quantum {
@@ -453,7 +466,7 @@ impl<B: AsRef<[usize]> + BitCount> SelectZeroAdapt<B, Box<[usize]>> {
             let bit_idx = start_bit_idx % usize::BITS as usize;
 
             // Clear the lower bits
-            let mut word = (!bits.as_ref()[word_idx] >> bit_idx) << bit_idx;
+            let mut word = (word_at(word_idx) >> bit_idx) << bit_idx;
 
             'outer: loop {
                 let ones_in_word = word.count_ones() as usize;
@@ -556,7 +569,7 @@ impl<B: AsRef<[usize]> + BitCount> SelectZeroAdapt<B, Box<[usize]>> {
                 }
 
                 // Read the next word
-                word = !bits.as_ref()[word_idx];
+                word = word_at(word_idx);
             }
 
             // If we are in the U32 case, we need to update the number of used
